@@ -18,7 +18,7 @@ from .._utils import catch_warnings
 class AssemblyManager(object):
     def __init__(self, vector, modules, id_="assembly", name="assembly"):
 
-        if vector.overhang_start() == vector.overhang_end():
+        if vector.overhang_start().upper() == vector.overhang_end().upper():
             details = "vector is not suitable for assembly"
             raise errors.InvalidSequence(vector, details=details)
 
@@ -47,7 +47,7 @@ class AssemblyManager(object):
     def _generate_modules_map(self):
         modmap = {}
         for mod in self.modules:
-            m = modmap.setdefault(mod.overhang_start(), mod)
+            m = modmap.setdefault(mod.overhang_start().upper(), mod)
             if m is not mod:
                 details = "same start overhang: '{}'".format(m.overhang_start())
                 raise errors.DuplicateModules(m, mod, details=details)
@@ -60,12 +60,12 @@ class AssemblyManager(object):
 
     def _generate_assembly(self, modmap):
         try:
-            overhang_next = self.vector.overhang_end()
+            overhang_next = self.vector.overhang_end().upper()
             assembly = SeqRecord(Seq(""))
-            while overhang_next != self.vector.overhang_start():
+            while overhang_next != self.vector.overhang_start().upper():
                 module = modmap.pop(overhang_next)
                 assembly += module.target_sequence()
-                overhang_next = module.overhang_end()
+                overhang_next = module.overhang_end().upper()
         except KeyError as ke:
             raise six.raise_from(errors.MissingModule(ke.args[0]), None)
         if modmap:
